@@ -24,8 +24,9 @@ class C10(Property):
     level_text = ("Rocq theorems over a process-network LTS of core/mr (caller, generator wrapper, executeMappers, mapper "
                   "wrappers, reducer wrapper, cancel/finish once-guards, source/collector/output/done/panicChan+quit) for ALL "
                   "schedules, item counts, worker counts and user scripts: worker bound, exactly-once hand-over of items and of "
-                  "mapper outputs, the result is the reducer's / a cancel error / the context error / a raised panic; "
-                  "clean termination (no deadlock, no leaked goroutine) as stated in notes/C10.md. The model is tied to "
+                  "mapper outputs (incl. the fault-free halves: nothing drained, every Write reaches the reducer), the result is "
+                  "the reducer's / a cancel error / the context error / a raised panic; terminal_clean: every state "
+                  "in which no thread can move is clean (no deadlock, no leaked goroutine) for the repaired protocol. The model is tied to "
                   "core/mr/mapreduce.go by forced schedules (gated user callbacks + goroutine quiescence) with a goroutine census.")
     level_note = ("Trusted: Coq kernel + vm_compute; hand-written model (atomicity: recover+failed+++CAS one step, guard check "
                   "at the start of Write, close(done)+close(output) one step); correspondence only on generated forced "
